@@ -91,4 +91,57 @@ Proof.
   rewrite vsum_flat_map. f_equal. apply map_ext. intros i.
   rewrite combine_map_same, map_map. reflexivity.
 Qed.
+
+(* ---- several groups (the groups that contribute to a slot, i.e. after the None filtering) ------------------------ *)
+Lemma dense_sum_app r1 c1 (d1 : list V) r2 c2 d2 r c :
+  length r1 = length c1 -> length c1 = length d1 ->
+  dense_sum V vadd vzero (r1 ++ r2) (c1 ++ c2) (d1 ++ d2) r c
+  = vadd (dense_sum V vadd vzero r1 c1 d1 r c) (dense_sum V vadd vzero r2 c2 d2 r c).
+Proof.
+  intros H1 H2. unfold dense_sum.
+  rewrite (combine_app r1 r2 c1 c2) by assumption.
+  rewrite (combine_app (combine r1 c1) (combine r2 c2) d1 d2) by (rewrite combine_length; lia).
+  now rewrite map_app, (vsum_app V vadd vzero vadd_assoc vadd_0_l).
+Qed.
+
+Lemma rows_cols_cons dof_n g gs :
+  rows_cols dof_n true (g :: gs)
+  = (fst (rows_cols dof_n true [g]) ++ fst (rows_cols dof_n true gs), snd (rows_cols dof_n true [g]) ++ snd (rows_cols dof_n true gs)).
+Proof. simpl. now rewrite !app_nil_r. Qed.
+
+Lemma rows_cols_single_lengths dof_n g n :
+  (forall conn, In conn g -> length (assembly_e dof_n conn) = n) ->
+  length (fst (rows_cols dof_n true [g])) = (length g * (n * n))%nat /\
+  length (snd (rows_cols dof_n true [g])) = (length g * (n * n))%nat.
+Proof.
+  intros H. simpl. rewrite !app_nil_r. split.
+  - induction g as [|c t IH]; simpl; [reflexivity|]. rewrite app_length, IH by (intros; apply H; now right).
+    unfold rows_e. rewrite np_repeat_each_length, H by (now left). lia.
+  - induction g as [|c t IH]; simpl; [reflexivity|]. rewrite app_length, IH by (intros; apply H; now right).
+    unfold cols_e. rewrite np_tile_length, H by (now left). lia.
+Qed.
+
+(* one (group, block size, logical element array) triple per contributing group *)
+Definition gspec := (group * nat * sarr V)%type.
+Definition gs_ok (dof_n : Z) (t : gspec) : Prop :=
+  let '(g, n, K) := t in
+  (forall conn, In conn g -> length (assembly_e dof_n conn) = n) /\ n0 V K = length g /\ n1 V K = n /\ n2 V K = n.
+
+Theorem dense_sum_is_sum_over_groups dof_n (ts : list gspec) r c :
+  (forall t, In t ts -> gs_ok dof_n t) ->
+  let rc := rows_cols dof_n true (map (fun t => fst (fst t)) ts) in
+  dense_sum V vadd vzero (fst rc) (snd rc) (flat_map (fun t => ravelC V (snd t)) ts) r c
+  = vsum (map (fun t => element_sum dof_n (fst (fst t)) (snd (fst t)) (snd t) r c) ts).
+Proof.
+  induction ts as [|[[g n] K] ts IH]; intros Hok.
+  - reflexivity.
+  - cbn [map flat_map fst snd]. rewrite rows_cols_cons. cbn [fst snd].
+    destruct (Hok (g, n, K) (or_introl eq_refl)) as (Hlen & E0 & E1 & E2).
+    destruct (rows_cols_single_lengths dof_n g n Hlen) as [L1 L2].
+    rewrite dense_sum_app.
+    + rewrite (dense_sum_is_sum_of_element_matrices dof_n g n K r c Hlen E0 E1 E2).
+      cbn [vsum C03_Csr.vsum fold_right]. f_equal. apply IH. intros t Ht. apply Hok. now right.
+    + transitivity (length g * (n * n))%nat; [exact L1|symmetry; exact L2].
+    + transitivity (length g * (n * n))%nat; [exact L2|]. rewrite ravelC_length, E0, E1, E2. reflexivity.
+Qed.
 End Mon.
